@@ -27,7 +27,7 @@ RULE = ("Arc subsets (complete graph minus random arcs, optionally with upstream
         "numpy.random.seed(random) and for r = 1; regular graphs (exactly d live successors per live vertex, d = 1..4) built from "
         "threshold-d closed graphs; arbitrary arc subsets and the arc-less graph for the <= 2 / == 0 claims. Non-trivial: the "
         "graph is not regular (the answer is not log2 of an integer by construction); distinct = hash of (graph, repeats)."
-        ' Also: graphs with a uniform raw out-degree whose arcs partly lead to arc-less vertices, and unpruned sparse arc subsets (sources, dead ends, thin cores; arc densities 0.25-0.7) at orders 2-4; repeats = 1, 2 and one of 3/5/10 on every judged graph.')
+        ' Also: graphs with a uniform raw out-degree whose arcs partly lead to arc-less vertices, and unpruned sparse arc subsets (sources, dead ends, thin cores; arc densities 0.25-0.7) at orders 2-4; graphs found by an oracle-side batched search for deceptive states of the power iteration (two equal consecutive estimates and an unchanged 2-norm / sum while the vector still moves); repeats = 1, 2 and one of 3/5/10 on every judged graph.')
 TOL = 1e-4 + 1e-8
 
 
@@ -129,6 +129,32 @@ def cheap_precondition(acc):
     """Necessary part of the precondition (exactly one non-trivial strongly connected component) - a fast pre-filter."""
     comps = [c for c in G.scc_list(acc) if len(c) > 1 or acc[c[0]][c[0] % 4] == c[0]]
     return len(comps) == 1
+
+
+def deceptive_graphs(k, batch, seed):
+    """Search on the oracle side (batched numpy, nothing from dsw): random arc subsets of order k for which the max-norm power
+    iteration from the all-ones start passes through a *deceptive state* - two consecutive estimates exactly equal while the
+    vector still moves, and a scalar summary of the vector (2-norm or sum) unchanged as well.  Any stopping rule that looks
+    at less than the whole vector stops there.  Returns the live-arc masks (m, 4^k, 4)."""
+    n = 4 ** k
+    r = np.random.RandomState(seed)
+    dens = r.choice([0.3, 0.4, 0.5, 0.6, 0.7, 0.8], batch)
+    live = r.random_sample((batch, n, 4)) < dens[:, None, None]
+    idx = (np.arange(n)[:, None] * 4 + np.arange(4)[None, :]) % n
+    x = (live.sum(-1) > 0).astype(float)
+    prev_e = np.full(batch, -1.0)
+    flag = np.zeros(batch, bool)
+    for _ in range(40):
+        y = (x[:, idx] * live).sum(-1)
+        e = y.max(-1)
+        ok = e > 0
+        xn = np.where(ok[:, None], y / np.where(ok, e, 1.0)[:, None], 0.0)
+        moved = np.abs(xn - x).max(-1) > 1e-7
+        same2 = np.abs(np.sqrt((xn ** 2).sum(-1)) - np.sqrt((x ** 2).sum(-1))) < 1e-10
+        same1 = np.abs(xn.sum(-1) - x.sum(-1)) < 1e-10
+        flag |= (e == prev_e) & ok & moved & (same2 | same1)
+        prev_e, x = e, xn
+    return live[flag]
 
 
 def first_two_estimates(acc):
@@ -308,6 +334,30 @@ def generate(ctx):
                     acc[v, j] = (v * 4 + j) % n
         if (acc >= 0).any() and cheap_precondition(acc):
             yield "capacity", dict(gens.graph_case(acc, k), fam="sparse-low", npseed=rng.getrandbits(32))
+    found = 0
+    for _ in range(ctx.pick(12000, 60000)):
+        if found >= ctx.pick(20, 120):
+            break
+        k = 2
+        acc = -np.ones((16, 4), dtype=int)
+        d = rng.choice([0.15, 0.2, 0.25, 0.3])
+        for v in range(16):
+            for j in range(4):
+                if rng.random() < d:
+                    acc[v, j] = (v * 4 + j) % 16
+        if not (acc >= 0).any() or not cheap_precondition(acc):
+            continue
+        info = analyse(acc)
+        if info["why"].startswith("periodic (period") and int(info["why"].split("period ")[1].rstrip(")")) >= 3:
+            found += 1
+            yield "cap_bounds", dict(gens.graph_case(acc, k), period=int(info["why"].split("period ")[1].rstrip(")")), seed0=rng.getrandbits(24))
+    for k, batch in ((2, ctx.pick(20000, 150000)), (3, ctx.pick(3000, 25000))):
+        n = 4 ** k
+        full = (np.arange(n)[:, None] * 4 + np.arange(4)[None, :]) % n
+        for live in deceptive_graphs(k, batch, rng.getrandbits(31)):
+            acc = np.where(live, full, -1).astype(int)
+            if cheap_precondition(acc):
+                yield "capacity", dict(gens.graph_case(acc, k), fam="deceptive", npseed=rng.getrandbits(32))
     for gi, (k, d) in enumerate([(2, 2), (2, 3), (3, 2), (3, 3), (4, 2), (4, 3)]):
         for dead in (0, 4 ** k - 1, None):
             if ctx.mine(gi):
@@ -421,6 +471,55 @@ def check_bounds(ctx, case):
     ctx.done("bounds", case, True)
 
 
+def estimates_at_the_cap(acc, seeds, iterations=503):
+    """Oracle-side simulation (batched over seeds) of the max-norm power iteration from the random starts numpy hands out
+    for these seeds; returns the last four largest-entry estimates per seed, shape (4, len(seeds))."""
+    n = len(acc)
+    live = acc >= 0
+    idx = np.where(live, acc, 0)
+    starts = []
+    for sd in seeds:
+        np.random.seed(sd)
+        starts.append(np.abs(np.random.random(size=(n,))))
+    x = np.array(starts)
+    x[:, live.sum(-1) == 0] = 0.0
+    tail = []
+    for _ in range(iterations):
+        y = (x[:, idx] * live).sum(-1)
+        e = y.max(-1)
+        x = np.where((e > 0)[:, None], y / np.where(e > 0, e, 1.0)[:, None], 0.0)
+        tail = (tail + [e])[-4:]
+    return np.array(tail)
+
+
+def check_cap_bounds(ctx, case):
+    """Graphs whose iteration never settles (periodic cyclic part) run into maximum_iteration.  Whatever the fall-back
+    reports, the result must not exceed 2 bits.  Seeds are picked by simulating the estimate sequence on the oracle side:
+    those whose last estimates are closest to an arithmetic progression (where any extrapolation explodes), the widest
+    spread, and a few at random."""
+    dsw = import_dsw()
+    acc = gens.acc_of(case)
+    where = "k=%d graph=%s (periodic, period %d)" % (case["k"], case["arcs"], case["period"])
+    seeds = [case["seed0"] + i for i in range(240)]
+    t = estimates_at_the_cap(acc, seeds)
+    risk = np.zeros(len(seeds))
+    for a, b, c in ((t[0], t[1], t[2]), (t[1], t[2], t[3])):
+        curv = c - 2 * b + a
+        with np.errstate(divide="ignore", invalid="ignore"):
+            pred = np.where(curv != 0, c - (c - b) ** 2 / curv, c)
+        risk = np.maximum(risk, np.nan_to_num(pred, nan=0.0, posinf=1e300, neginf=0.0))
+    spread = t.max(0) - t.min(0)
+    ctx.obs("largest spread of the last estimates at the iteration cap", float(spread.max()))
+    picked = list(np.argsort(-risk)[:4]) + list(np.argsort(-spread)[:1]) + [ctx.rng.randrange(len(seeds))]
+    for i in dict.fromkeys(int(x) for x in picked):
+        for r in (2, 3):
+            val = _cap(ctx, dsw, frozen(acc), r, where + " numpy seed %d" % seeds[i], npseed=seeds[i])
+            ctx.evaluations += 1
+    if spread.max() > 1e-6:
+        ctx.cls("bounds|estimates still cycling at the iteration cap")
+    ctx.done("cap_bounds", case, True)
+
+
 def check_regular_dead(ctx, case):
     """Every vertex but one is live and has exactly d live successors; the arcs into the one arc-less vertex are kept as
     well (they lead nowhere).  The property promises exactly log2 d."""
@@ -501,7 +600,7 @@ def check_edit_sequence(ctx, case):
     ctx.done("edit_sequence", case, True)
 
 
-CHECKS = {"regular_dead": check_regular_dead, "regular_large": check_regular_large, "edit_sequence": check_edit_sequence, "capacity": check_capacity, "regular": check_regular, "bounds": check_bounds}
+CHECKS = {"cap_bounds": check_cap_bounds, "regular_dead": check_regular_dead, "regular_large": check_regular_large, "edit_sequence": check_edit_sequence, "capacity": check_capacity, "regular": check_regular, "bounds": check_bounds}
 
 
 def floors(agg, tier):
@@ -509,7 +608,7 @@ def floors(agg, tier):
     c = agg["classes"]
     for name, need in (("precondition graph", 300), ("non-regular graph whose first two estimates coincide", 30),
                        ("bounds|arc-less", 2), ("bounds|any graph", 100), ("precondition graph|tails", 20),
-                       ("precondition graph|generated", 20), ("precondition graph|sparse", 100), ("precondition graph|sparse-low", 300), ("accessor layout|F", 50),
+                       ("precondition graph|generated", 20), ("precondition graph|sparse", 100), ("precondition graph|sparse-low", 300), ("precondition graph|deceptive", 200), ("bounds|estimates still cycling at the iteration cap", 20), ("accessor layout|F", 50),
                        ("capacity re-requested after in-place edits of the same accessor", 50), ("regular|order 8", 1), ("regular|one arc-less vertex 0", 6),
                        ("non-regular graph with a uniform raw out-degree (arcs into arc-less vertices)", 15)):
         if c.get(name, 0) < need:
